@@ -161,7 +161,7 @@ def algebra(ctx, thorough):
 # --------------------------------------------------------------------------------------
 # (B) solved objects
 # --------------------------------------------------------------------------------------
-TYPES = ['A', 'B', 'C']
+TYPES = ['mB', 'A', 'c3']          # not in alphabetical order, names of different lengths
 CLO = {'PY': lambda a, b: ['PY'], 'HNC': lambda a, b: ['HNC'], 'PY/HNC': lambda a, b: ['PY'] if a == b else ['HNC'],
        'MSAhc': lambda a, b: ['MSA', True], 'PYhc/HNC': lambda a, b: ['PY', True] if a == b else ['HNC']}
 POT = {'HS': lambda a, b: ['HardSphere'], 'HS+Exp': lambda a, b: ['HardSphere'] if a == b else ['Exponential', 0.3, 0.5],
